@@ -1438,6 +1438,8 @@ def w_accept(failure, tier):
         ("null in a non-nullable keyword field", dict(good(103), k=None)),
         ("null in a non-nullable nested field", dict(good(104), c=None)),
         ("a nested element that is not an object", dict(good(105), c=["text"])),
+        ("an array inside the array of a nested field", dict(good(109), c=[[{"a": "u"}]])),
+        ("an empty array inside the array of a nested field", dict(good(110), c=[[]])),
         ("an unknown field inside a nested object", dict(good(106), c=[{"a": "u", "zz": 1}])),
         ("a number in a text field", dict(good(107), body=42)),
         ("a blank id", dict(good(108), _id="  ")),
@@ -1463,9 +1465,96 @@ def w_accept(failure, tier):
     return dict(found=False, note='accepted documents: %d histories, each queueing one schema-breaking document between good ones: every commit succeeds' % n)
 
 
+# ---------------------------------------------------------------- the HTTP front end (real server on a loopback port)
+HTTP_DRIVER_DIR = os.path.join(VERIF, 'driver-http')
+HTTP_TARGET = os.path.join(VERIF, '.cache', 'driver-http-target')
+HTTP_BIN = os.path.join(HTTP_TARGET, 'debug', 'verif-driver-http')
+_http_built = dict(ok=None, log='')
+
+
+def build_http_driver():
+    if _http_built['ok'] is not None:
+        return _http_built['ok']
+    env = dict(os.environ, CARGO_NET_OFFLINE='true', CARGO_TARGET_DIR=HTTP_TARGET)
+    lock = os.path.join(HTTP_DRIVER_DIR, 'Cargo.lock')
+    if not os.path.exists(lock):
+        import shutil
+        shutil.copy('/repo/Cargo.lock', lock)
+    p = subprocess.run(['cargo', 'build', '--offline', '-q'], cwd=HTTP_DRIVER_DIR, env=env, stdout=subprocess.PIPE,
+                       stderr=subprocess.STDOUT, text=True, timeout=3600)
+    _http_built['ok'] = (p.returncode == 0)
+    _http_built['log'] = p.stdout[-2000:]
+    return _http_built['ok']
+
+
+def drive_http(cases):
+    data = '\n'.join(_json.dumps(c).encode().hex() for c in cases) + '\n'
+    p = subprocess.run([HTTP_BIN], input=data, stdout=subprocess.PIPE, stderr=subprocess.PIPE, text=True, timeout=900)
+    return p.stdout.split('\n')[:len(cases)]
+
+
+def w_http_queue(failure, tier):
+    """the HTTP service as a queue: whatever /add, /bulk and /delete acknowledged is applied by the next /commit, in order,
+    even when other write requests were refused in between; a refused request leaves nothing of its own behind"""
+    if not build_http_driver():
+        return dict(found=False, note='http driver failed to build from /repo: ' + _http_built['log'][-600:])
+    schema = {"doc_id_field": "_id", "text_fields": [{"name": "body", "analyzer": "default", "stored": True, "indexed": True, "nullable": False}],
+              "keyword_fields": [], "numeric_fields": []}
+    nd = lambda docs: ''.join(_json.dumps(d) + '\n' for d in docs)
+    good = lambda i: {"_id": "d%d" % i, "body": "rust %d" % i}
+    bads = [{"body": "no id"}, {"_id": "  ", "body": "blank id"}, {"_id": "x", "body": 7}]
+    base = os.path.join(VERIF, '.cache', 'http-%d' % os.getpid())
+    cases, expect = [], []
+    for bi, bad in enumerate(bads):
+        for via in ("add", "bulk"):
+            refused = (["POST", "/add", nd([good(2), bad, good(3)])] if via == "add"
+                       else ["POST", "/bulk", _json.dumps({"docs": [good(2), bad, good(3)]})])
+            reqs = [["POST", "/init", _json.dumps(schema)],
+                    ["POST", "/add", nd([good(0)])],
+                    ["POST", "/bulk", _json.dumps({"docs": [good(1)]})],
+                    refused,
+                    ["POST", "/add", nd([good(4)])],
+                    ["POST", "/delete", _json.dumps({"ids": ["d1"]})],
+                    ["POST", "/commit", ""],
+                    ["POST", "/search", _json.dumps({"query": "rust", "limit": 20, "return_stored": False})]]
+            cases.append({"dir": base, "requests": reqs})
+            expect.append((via, bad, ["d0", "d4"]))
+    outs = drive_http(cases)
+    n = 0
+    for c, (via, bad, want), r in zip(cases, expect, outs):
+        if not r.startswith('OK '):
+            return dict(found=False, note='http driver failed: %s' % r[:300])
+        res = _json.loads(r[3:])
+        n += 1
+        st = [x.get('status') for x in res]
+        problems = []
+        if st[1] != 200 or st[2] != 200 or st[4] != 200 or st[5] != 200:
+            problems.append('an acceptable write was not acknowledged: statuses %s' % st)
+        if not (400 <= (st[3] or 0) < 500):
+            problems.append('the request holding %s was answered %s' % (_json.dumps(bad), st[3]))
+        try:
+            hits = sorted(h['doc_id'] for h in _json.loads(res[7]['body'])['hits'])
+        except Exception:
+            hits = None
+        if hits != want:
+            problems.append('after /commit the index holds %s' % hits)
+        if problems:
+            return dict(found=True, cmd='%s <<< hex(json)' % HTTP_BIN,
+                        input='real server; /init, /add d0, /bulk d1, %s [d2, %s, d3] (refused), /add d4, /delete d1, /commit, /search' % ('/' + via, _json.dumps(bad)),
+                        observed='; '.join(problems) + '; statuses %s' % st, expected='the index holds %s: everything acknowledged, nothing of the refused request' % want)
+    return dict(found=False, note='HTTP queue: %d request sequences against the real server: acknowledged writes survive refused requests, refused requests leave nothing behind' % n)
+
+
 GENERATORS = {
+    ('U41', 'bulk_ingest_section'): w_http_queue,
+    ('U41', 'add_ndjson_section'): w_http_queue,
+    ('U41', 'rollback'): w_http_queue,
+    ('U42', 'checkpoint'): w_http_queue,
+    ('U42', 'rollback_to'): w_http_queue,
     ('U40', 'validate_fields'): w_accept,
     ('U40', 'collect_fields'): w_accept,
+    ('U40', 'validate_array'): w_accept,
+    ('U40', 'validate_null'): w_accept,
     ('U39', 'prefix_candidates'): w_completion,
     ('U39', 'suggest_cut'): w_completion,
     ('U39', 'fuzzy_candidates'): w_completion,
